@@ -537,13 +537,12 @@ class SelfPath(Path):
         return "@" + str(self.path)[1:]
 
     def evaluate(self, context: FilterContext) -> object:
-        if isinstance(context.current, str):  # TODO: refactor
+        if isinstance(context.current, str) or not isinstance(
+            context.current, (Sequence, Mapping)
+        ):
+            # A primitive has no children, but `@` alone still selects it.
             if self.path.empty():
-                return context.current
-            return NodeList()
-        if not isinstance(context.current, (Sequence, Mapping)):
-            if self.path.empty():
-                return context.current
+                return NodeList([self._root_match(context)])
             return NodeList()
 
         return NodeList(self._resolve(context))
@@ -578,13 +577,12 @@ class SelfPath(Path):
         return matches
 
     async def evaluate_async(self, context: FilterContext) -> object:
-        if isinstance(context.current, str):  # TODO: refactor
+        if isinstance(context.current, str) or not isinstance(
+            context.current, (Sequence, Mapping)
+        ):
+            # A primitive has no children, but `@` alone still selects it.
             if self.path.empty():
-                return context.current
-            return NodeList()
-        if not isinstance(context.current, (Sequence, Mapping)):
-            if self.path.empty():
-                return context.current
+                return NodeList([self._root_match(context)])
             return NodeList()
 
         return NodeList(
